@@ -64,6 +64,26 @@ CHECKS = {
              "bit-identical results on ASCII input; to_hex/from_hex against float.hex/fromhex and for round trip; format_fixed/exponent/general against '%.*f/e/g' incl. '#', both cases, precisions 0..20.",
         note="Trusted: CPython's correctly rounded conversions. Digits of to_string may differ from repr when equally short (allowed by the statement).",
         design="§2 C17"),
+    "C18": dict(
+        technique="differential runtime oracle against Python format() over a mini-language grid and malformed specifications; outcome kinds text/error/panic; root-cause predicates for known findings",
+        text="FormatSpec::parse + format_int/float/string/bool are executed on (spec, value) pairs drawn from the format mini-language (all fields, all 16 types) plus malformed "
+             "strings, with ints beyond 64 bit, doubles incl. specials, multi-byte strings and booleans; text, error and panic outcomes are compared with Python's. "
+             "About a fifth of the grid deviates on the pinned tree: every deviation must match one of 16 recorded root-cause predicates or it is a violation.",
+        note="Trusted: Python 3.11 format() in the C locale. The root-cause predicates are broad (field-level), so a change confined to an already deviating region can hide.",
+        design="§2 C18"),
+    "C19": dict(
+        technique="differential runtime oracle against Python's % operator (text and bytes), structured and malformed templates; valgrind shard",
+        text="Templates with 1-3 specifiers (mapping keys with nested parentheses, repeated flags, width/precision incl. '*', length modifiers, all conversions) are parsed "
+             "and each specifier formatted by the crate with ints, doubles, strings, characters and byte strings; outputs, mapping keys, rejection category and the "
+             "character index of unsupported-format errors are compared with Python's. Malformed templates are probed with an argument count Python accepts.",
+        note="Trusted: Python 3.11 %-formatting; the 40-line driver in harness/src/ops_fmt.rs (one argument per specifier, int->float/str/chr as an interpreter would).",
+        design="§2 C19"),
+    "C20": dict(
+        technique="differential runtime oracle against _string.formatter_parser / formatter_field_name_split, exhaustive small alphabet",
+        text="Every string over {{ } [ ] ! : . 0 a é} up to length 5 (6 thorough), random and structured templates are split by FormatString::from_str and compared "
+             "(literals with doubled braces unescaped and adjacent literals merged; field name, conversion, spec); FieldName::parse is compared with Python's splitter.",
+        note="Trusted: CPython's _string module. Templates whose spec nests braces deeper than one level are outside the statement and skipped (counted).",
+        design="§2 C20"),
 }
 
 PENDING = {}
